@@ -52,6 +52,10 @@ pub fn spec(property: &str, tier: &str) -> Option<CheckSpec> {
 		sp.required_probes.push("netsim_runs".to_string());
 		sp.required_probes.push("net_final_head_is_winner".to_string());
 		sp.required_probes.push("net_headers_synced_through_adapter".to_string());
+		if property == "C06" {
+			sp.required_probes.push("losing_fork_block_delivered_with_pool_watch".to_string());
+			sp.rule.push_str("; every eighth case is a poolsim case judged for C06's pool clauses only: no submission, accepted or refused, changes the chain fingerprint, and a block accepted onto a fork that does not become the head leaves the set of pooled (txpool and stempool) kernels exactly as it was");
+		}
 		if property == "C03" {
 			sp.required_probes.push("mesh_mesh_converged".to_string());
 			sp.rule.push_str("; every eighth case is an E11 mesh case: 2, 3 or 4 (ring) real nodes with their complete p2p stacks, the simulator being every wire between them (frames relayed in seeded link order, held while a link is partitioned and delivered on heal); blocks are mined on a node from that node's own pool and enter the network as a miner's block does (process_block with MINE -> compact block broadcast, header-first relay onwards, compact block / full block / transaction requests between the real nodes), transactions are pushed to a node as the API pushes them and travel on by the nodes' own relay (fluff broadcast by kernel hash, Dandelion stem to the one outbound peer); per step every node's head work never decreases and is a mined block; at quiescence (all links up, one more block on the best head) all nodes have the same head - the most-work block mined - and the same state, equal to the block builder's, and validate(false) passes");
@@ -161,6 +165,13 @@ fn spec_inner(property: &str, tier: &str) -> Option<CheckSpec> {
 				"kernel TCP loopback sockets".into(),
 			];
 			sp.stub_components = vec!["the remote peer (simulator owns the other end of the socket and the fragmentation)".into(), "p2p::Protocol/Peer (the reader loop mirrors conn::poll: stop at the first error; expect_attachment after TxHashSetArchive)".into()];
+			sp.engine = "wiresim+netsim".to_string();
+			sp.rule.push_str(". One case in four (E11 netsim, versions): a complete real node with connections that settled on protocol versions 1, 2, 3 and 1000 (one of them dialled by the node and therefore its Dandelion relay; most without the kernel-hash capability, so that full transactions are relayed); transactions (fluff, stem) and blocks enter through a further connection or are mined on the node (compact-block broadcast), members of the audience ask for blocks, compact blocks and headers; every frame the node writes - through Peer::send and through Protocol's responses - must decode at the version of its connection and be a transaction, kernel, block or header the node was given; no honest connection may be lost");
+			sp.real_components.extend(net_real());
+			sp.stub_components.extend(net_stub());
+			for p in ["net_versions_runs", "node_sent_tx_at_v1", "node_sent_tx_at_v2", "node_sent_compact_block_at_v2", "node_sent_tx_at_v3"] {
+				sp.required_probes.push(p.to_string());
+			}
 			Some(sp)
 		}
 		"C18" => {
@@ -1210,7 +1221,14 @@ pub fn replay_chainsim(rp: &Value) -> Result<Option<Violation>, String> {
 pub fn run_case(property: &str, tier: &str, seed: u64, case: u64) -> CaseResult {
 	match property {
 		"C09" => crate::crashsim::case(tier, seed, case),
-		"C19" => crate::wiresim::c19_case(tier, seed, case),
+		"C19" => {
+			// one case in four: what a complete node itself writes, at every negotiated protocol version
+			if case % 4 == 3 {
+				crate::netsim::versions_case(tier, seed, case)
+			} else {
+				crate::wiresim::c19_case(tier, seed, case)
+			}
+		}
 		"C11" => {
 			if case % 5 == 4 {
 				crate::apisim::case(tier, seed, case)
@@ -1266,6 +1284,10 @@ pub fn run_case(property: &str, tier: &str, seed: u64, case: u64) -> CaseResult 
 			// eighth is a mesh of real nodes gossiping among themselves
 			if property == "C03" && case % 8 == 5 {
 				crate::netsim::mesh_case(property, tier, seed, case)
+			} else if property == "C06" && case % 8 == 5 {
+				// the pool clauses of C06 (submissions never change chain state; a losing fork block leaves
+				// the pool alone)
+				crate::poolsim::case_c06(tier, seed, case)
 			} else if case % 4 == 3 {
 				crate::netsim::relay_case(property, tier, seed, case)
 			} else {
